@@ -396,7 +396,19 @@ func (in *Interp) runPath(prefix []decision) {
 		}()
 		in.flush()
 	}()
-	// a feasible panic / unwind is a violation candidate
+	// a feasible panic / unwind is a violation candidate; a path kept after an
+	// undecided branch may be infeasible, so its path condition is decided first
+	if (pe.Kind == "panic" || pe.Kind == "unwind") && in.model == nil {
+		v, m := in.check(nil, true, in.ts.Vars)
+		switch v {
+		case Sat:
+			in.setModel(m)
+		case Unsat:
+			pe = pathEnd{Kind: "infeasible", Msg: "pc unsat at " + pe.Kind + ": " + pe.Msg, Pos: pe.Pos}
+		default:
+			pe = pathEnd{Kind: pe.Kind + "-undecided", Msg: "feasibility of the path undecided: " + pe.Msg, Pos: pe.Pos}
+		}
+	}
 	switch pe.Kind {
 	case "panic":
 		in.reportViolation("panic", pe.Msg, pe.Pos)
@@ -1135,9 +1147,19 @@ func (in *Interp) assertTerm(c *Term, tag string, mustFail bool) {
 	var v Verdict
 	var m Model
 	if c.IsFalse() {
-		v = Sat
-		in.ensureModelNoEnd()
-		m = in.model
+		// the assertion is constant-false on this path: it is a violation only if the
+		// path itself is feasible (a branch kept after an undecided feasibility check may
+		// be infeasible), so decide the path condition now
+		if in.model != nil {
+			v, m = Sat, in.model
+		} else {
+			v, m = in.check(nil, true, in.ts.Vars)
+			if v == Sat {
+				in.setModel(m)
+			} else if v == Unsat {
+				in.end("infeasible", "pc unsat at constant-false assertion "+tag)
+			}
+		}
 	} else {
 		v, m = in.check(nc, true, in.ts.Vars)
 	}
